@@ -13,7 +13,7 @@ import (
 func init() {
 	Drivers["C12"] = driveC12
 	Levels["C12"] = "exploration"
-	Rules["C12"] = "one run = one array (length 0-8, a quarter of them 9-24, elements of every JSON type in mixed Go representations: float64/int/int8/uint/float32/json.Number spellings, inside []any and map[string]any containers built in different insertion orders) with or without a planted duplicate at a chosen pair of positions that is equal but not identical, checked against {uniqueItems:true}; or one enum / const schema against an instance; or (one run in six) 2-4 arrays that share elements, checked inside ONE Validate call below anyOf / not / if-then / contains (which swallow a failed uniqueItems), against the definition applied array by array; or (one run in 24) an array of 65-450 items with one Equal pair at a chosen pair of positions, validated 10 times (10 seeds); each validated under 8 (quick) / 24 (thorough) configurations of hash seed x collision mask {64,2,1,0 bits} x map order. Oracles: the verdict equals the pairwise definition computed with the public Equal, identically in every configuration; and, through the generated hashValue helper, Equal(x,y) implies equal digests under the same seed with independent map orders for x and y. Non-trivial = a planted duplicate whose members differ in Go representation in an array of length >=3, or a masked configuration in which >=2 unequal items shared a bucket. Distinct = hash(values with their Go types, schema kind) x (seed, mask, order) vector."
+	Rules["C12"] = "one run = one array (length 0-8, a quarter of them 9-24, elements of every JSON type in mixed Go representations: float64/int/int8/uint/float32/json.Number spellings, inside []any and map[string]any containers built in different insertion orders) with or without a planted duplicate at a chosen pair of positions that is equal but not identical, checked against {uniqueItems:true}; or one enum / const schema (a quarter of the enums: numbers in mixed spellings; some decoded from JSON next to a twin that its owner edits) against an instance, a near miss of a listed value, and 2-5 further instances asked of the same Resolved afterwards; or (one run in six) 2-4 arrays that share elements, checked inside ONE Validate call below anyOf / not / if-then / contains (which swallow a failed uniqueItems), against the definition applied array by array; or (one run in 24) an array of 65-450 items with one Equal pair at a chosen pair of positions, validated 10 times (10 seeds); each validated under 8 (quick) / 24 (thorough) configurations of hash seed x collision mask {64,2,1,0 bits} x map order. Oracles: the verdict equals the pairwise definition computed with the public Equal, identically in every configuration; and, through the generated hashValue helper, Equal(x,y) implies equal digests under the same seed with independent map orders for x and y. Non-trivial = a planted duplicate whose members differ in Go representation in an array of length >=3, or a masked configuration in which >=2 unequal items shared a bucket. Distinct = hash(values with their Go types, schema kind) x (seed, mask, order) vector."
 	Assumptions["C12"] = append([]string{
 		"Equal is used as the definition of JSON equality, as the property's text does (that Equal itself is right is C11, not claimed); values behind pointers and typed containers ([]int, map[string]int) are not generated: Equal(&x, x) and Equal([]int{1}, []any{1.0}) are false (Equal does not look through an interface on one side only), which is a C11/C08 matter outside this check",
 		"with -tags purego hash/maphash is a pure function of the seed value, so a seed is a replayable decision; masking Sum64 to 2, 1 or 0 bits forces the collision path, which has probability 2^-64 per pair otherwise",
